@@ -52,7 +52,10 @@ def emit(sp):
     ctor = sp.get("ctor", "new %s %s" % (cha, pnames))
     if not cha and not pnames:
         ctor = "(new : M (%s))" % sty
-    o += "theorem new_ok %s %s %s : %s = .ok %s := by\n  %s\n\n" % (chb, params, sp.get("ctor_hyps", ""), ctor, s0app, sp.get("new_proof", "rfl"))
+    if sp.get("new_stmt"):
+        o += "theorem new_ok %s %s : %s := by\n  %s\n\n" % (chb, params, sp["new_stmt"], sp.get("new_proof", "rfl"))
+    else:
+        o += "theorem new_ok %s %s %s : %s = .ok %s := by\n  %s\n\n" % (chb, params, sp.get("ctor_hyps", ""), ctor, s0app, sp.get("new_proof", "rfl"))
     for extra_name, extra_ctor in sp.get("other_ctors", []):
         o += "theorem %s %s %s : %s := by\n  rfl\n\n" % (extra_name, chb, params, extra_ctor)
     mst = sp["mstate"]
@@ -63,13 +66,14 @@ def emit(sp):
         return e
     shyps = sp.get("state_hyps", "") + " ".join("(hd%d : s.%s = %s)" % (i, f, dexpr(e, lambda f_, p_: "s.%s" % f_)) for i, (f, e) in enumerate(derived))
     shn = " ".join(h.split(":")[0].strip("( ") for h in shyps.split(")") if ":" in h)
-    o += "theorem upd_eq %s (s : %s) (x : α) %s :\n    (update %s s x).map (abs %s) = (%s).upd (abs %s s) x := by\n  %s\n" % (
-        chb, sty, shyps, cha, cha, model_s, cha, sp.get("upd_proof", "simp only [update, wrap, mapV, binop, %s, abs]; gen_tie" % unfold))
+    limp = sp.get("lemma_implicit", "")
+    o += ("theorem upd_eq %s " + limp + " (s : %s) (x : α) %s :\n    (update %s s x).map (abs %s) = (%s).upd (abs %s s) x := by\n  %s\n") % ((
+        chb, sty, shyps, cha, cha, model_s, cha, sp.get("upd_proof", "simp only [update, wrap, mapV, binop, %s, abs]; gen_tie" % unfold)))
     cfgprop = " ∧ ".join("s'.%s = s.%s" % (f, f) for f, p in cfg + derived) or "True"
     o += "theorem upd_cfg %s (s s' : %s) (x : α) : update %s s x = .ok s' → %s := by\n  %s\n" % (
         chb, sty, cha, cfgprop, sp.get("cfg_proof", "simp only [update, %s]; gen_tie" % unfold))
-    o += "theorem last_eq %s (s : %s) %s : last %s s = (%s).last (abs %s s) := by\n  %s\n\n" % (
-        chb, sty, shyps, cha, model_s, cha, sp.get("last_proof", "simp only [last, wrap, mapV, binop, %s, abs]; gen_tie" % unfold))
+    o += ("theorem last_eq %s " + limp + " (s : %s) %s : last %s s = (%s).last (abs %s s) := by\n  %s\n\n") % ((
+        chb, sty, shyps, cha, model_s, cha, sp.get("last_proof", "simp only [last, wrap, mapV, binop, %s, abs]; gen_tie" % unfold)))
     cfgP = " ∧ ".join(["s.%s = %s" % (f, p) for f, p in cfg] + ["s.%s = %s" % (f, dexpr(e, lambda f_, p_: p_)) for f, e in derived]) or "True"
     n = len(cfg) + len(derived)
     nplain = len(cfg)
@@ -203,6 +207,14 @@ SPECS = [
       model="wrap A (roofCoreU {N} {Mss})", unfold="roofCoreU, ssStep, ssOut, ssInit, SF.Gen.SuperSmoother.update, SF.Gen.SuperSmoother.last, echoV", heartbeats=4000000,
       mstate="A.σ × RoofState α",
       abs="(s.view, { ss := { i := s.super_smoother.i, filt := s.super_smoother.filt, filt1 := s.super_smoother.filt_1, filt2 := s.super_smoother.filt_2, lastVal := s.super_smoother.last_val }, i := s.i, val1 := s.val_1, val2 := s.val_2, hp1 := s.hp_1, hp2 := s.hp_2 })"),
+ dict(view="Alma", src="src/sliding_windows/alma.rs", params="(N : Nat) (sigma offset : α)", cfg=[("window_len", "N")],
+      derived=[("m", "offset * (nat {N} + nat 1)"), ("s", "nat {N} / sigma")], lemma_implicit="{sigma offset : α}",
+      new_stmt="new_custom A N sigma offset = .ok (s0 A N sigma offset) ∨ new_custom A N sigma offset = .error .assertFailed",
+      new_proof="simp only [new_custom, s0]; munfold; split <;> simp",
+      other_ctors=[("new_default", "new A N = new_custom A N (nat 6 : α) (dec 85 100 : α)")],
+      s0="{ view := A.init, window_len := N, m := offset * (nat N + nat 1), s := nat N / sigma, wtd_sum := nat 0, cum_wt := nat 0, q_vals := [], q_wtd := [], q_out := [] }",
+      model="wrap A (almaCore {N} sigma offset)", unfold="almaCore, almaWeight", mstate="A.σ × AlmaState α",
+      abs="(s.view, { wtdSum := s.wtd_sum, cumWt := s.cum_wt, qVals := s.q_vals, qWtd := s.q_wtd, qOut := s.q_out })"),
 ] + [
  dict(view=v, src="src/pure_functions/%s.rs" % v.lower(), children=["A", "B"], imports=["SF.Model.Pure"],
       s0="{ a := A.init, b := B.init }", model="binop %s A B" % f, unfold=f, mstate="A.σ × B.σ", abs="(s.a, s.b)")
